@@ -578,7 +578,9 @@ class C16(Prop):
     title = 'Context-free tx and block checks accept exactly rule-conforming objects'
     lean_targets = ['BtcVerif.Props.C16']
     table_groups = ['Chain', 'Limits']
-    theorems = ['BtcVerif.C16.' + t for t in ()]
+    theorems = ['BtcVerif.C16.' + t for t in (
+        'sigops_eq_spec', 'tx_sigops_eq_spec', 'checkTx_iff', 'checkTx_reject_is_validation', 'outpoint_key_inj',
+        'checkHeader_iff', 'commitment_index_last', 'checkBlock_iff', 'reject_is_validation', 'chain_limits')]
     anchors = [('bitcoin/core/__init__.py', 'MoneyRange'),
                ('bitcoin/core/__init__.py', 'CheckTransaction'),
                ('bitcoin/core/__init__.py', 'CheckProofOfWork'),
@@ -593,7 +595,9 @@ class C16(Prop):
                     'double SHA-256 is an opaque symbol in the theorems; the Lean SHA-256 is cross-validated against '
                     'hashlib through every block hash, merkle root and commitment of the run',
                     'btcmodel executable = compiled Model.* (Lean compiler)']
-    assumptions = ['blocks are observed as CBlock objects built by the library constructor (vWitnessMerkleTree is what '
+    assumptions = ['every SHA-256d digest is 32 bytes long (explicit hypothesis HashLen of checkHeader_iff / '
+                   'checkBlock_iff / reject_is_validation; hash256 is opaque in proofs)',
+                   'blocks are observed as CBlock objects built by the library constructor (vWitnessMerkleTree is what '
                    'the constructor computed from vtx)', 'the clock is injected through cur_time']
     rule = ('generated valid regtest blocks (1..9 transactions; no / coinbase-only / partial / full witness data; nonce '
             'ground in the harness) and, per block, every single-rule edit of the catalogue with each boundary on '
@@ -731,6 +735,8 @@ class C16(Prop):
         yield mk('c16.checkblock', *args, tag=tag)
         if spec:
             yield mk('c16.spec.checkblock', *args, tag='spec ' + tag)
+        if tag.startswith(('commit', 'valid', 'spec commit', 'vtx-empty', 'no-witness', 'cb:vout-empty')):
+            yield mk('c16.commitidx', b.text(), tag='commitidx ' + tag)
         if chain != 'regtest' and b.fpow:
             # the regtest-grade proof of work does not meet the other chains' limit
             yield mk('c16.checkblock', chain, b.now, 1, b.fmerkle, b.text(), tag=tag + ' pow-checked')
@@ -786,6 +792,9 @@ class C16(Prop):
             b = txfmt.parse_block(a[4])
             return under(a[0], lambda: C.CheckBlock(self.build_block(b), fCheckPoW=(a[2] == '1'),
                                                     fCheckMerkleRoot=(a[3] == '1'), cur_time=int(a[1])))
+        if op == 'c16.commitidx':
+            b = txfmt.parse_block(a[0])
+            return guarded(lambda: str(self.build_block(b).get_witness_commitment_index()))
         if op in ('c16.sigops', 'c16.spec.sigops'):
             return guarded(lambda: str(self.CScript(bytes.fromhex(a[0])).GetSigOpCount(False)))
         raise ValueError(op)
